@@ -3,7 +3,7 @@ from lv import core, model, gen, drive
 from lv.props import common
 
 ID = 'C02'
-BUDGET = {'quick': 300, 'thorough': 12000}
+BUDGET = {'quick': 640, 'thorough': 12000}
 RULE = ('programs from the typed generator with the aggregation profile: predicate-level '
         'aggregation (+=, Sum, Min, Max, Count, List, Set, ArgMin, ArgMax; several '
         'aggregated arguments; 2-rule multi-body aggregation; functional P(k) Op= e), '
